@@ -1,5 +1,5 @@
 (* C13 - refused or failing operations do not corrupt the tree.
-   Statements only; proofs are in theories/Mut/Refusal.v (single-phase
+   Statements only; proofs are in theories/Mut/RefusalC13.v (single-phase
    operations), RefusalMulti.v (add(tree), copy_to) and Faults.v (escaped
    callback exceptions, read-only copies) - all about the mutation machine
    theories/Mut/Machine.v, which harness/props/C13.py ties to the
@@ -19,7 +19,7 @@
    node registry, clone index.  [WFw] is the C01-C03 invariant.  [rows 0 f] is
    the pre-order list of (parent id, node id, payload) of a forest. *)
 From Coq Require Import List ZArith Bool Arith Permutation.
-From NT Require Import Sx Rose Surgery SurgeryFacts Machine WF Refusal RefusalMulti Faults.
+From NT Require Import Sx Rose Surgery SurgeryFacts Machine WF RefusalC13 RefusalMulti Faults.
 Import ListNotations.
 
 (* ================= refusal ================= *)
